@@ -79,6 +79,7 @@ theorem C08_sites : Gen.policySites = [
   ("resolveRecordVersion", "spec", "switch:Dr,Fr,War"),
   ("newWarcFieldsBlock", "syn", "cmp:>ErrIgnore"), ("newWarcFieldsBlock", "syn", "switch:Fr,Wa"),
   ("newWarcFieldsBlock", "blk", "cmp:>ErrIgnore"), ("newWarcFieldsBlock", "blk", "switch:Fr,Wa"),
+  ("newWarcFieldsBlock", "syn", "cmp:==ErrIgnore"),
   ("readLine", "syn", "cmp:>ErrIgnore"), ("readLine", "syn", "cmp:==ErrFail"),
   ("Parse", "syn", "switch:Fr,I-,Wa"), ("Parse", "syn", "switch:Fr,I-,Wa"), ("Parse", "syn", "switch:Fr,I-,Wa"), ("Parse", "syn", "switch:Fr,I-,Wa")] := by
   decide
@@ -88,8 +89,6 @@ theorem C08_switch_shapes : Gen.policySites.all (fun s =>
     s.2.2.toList.take 7 != "switch:".toList || ["switch:Fr,Wa", "switch:Fr,I-,Wa", "switch:Fr,Was", "switch:Fr,I-,Was", "switch:Dr,Fr,War"].contains s.2.2) = true := by
   decide
 
-/- Not proved (covered by the exhaustive 81-combination comparison on every generated input only): axis-by-axis
-   monotonicity with the other axes held at arbitrary levels. `C08_warn_error_implies_fail_error` is the uniform-level
-   instance that follows from the simulation. -/
+/- Axis-by-axis monotonicity with the other axes held at arbitrary levels: Props/C08mono.lean. -/
 
 end Gowarc.Props.C08
